@@ -87,8 +87,10 @@ def ident_index(seq, r):
     raise RuntimeError("choice returned an object that is not a member of the sequence: %r" % (r,))
 
 
-def run_history(case):
-    """run the history against the real coba.random; returns list of outputs (one per hist entry)"""
+def run_history(case, fork=False):
+    """run the history against the real coba.random; returns list of outputs (one per hist entry).
+    fork=True: the generators are created (and the module-level one seeded) in this process, the calls are
+    then made in a child created by os.fork() -- a forked child must continue the same streams."""
     import coba.random as cr
     import random as pyrandom
     insts = []
@@ -98,6 +100,28 @@ def run_history(case):
             insts.append(None)
         else:
             insts.append(cr.CobaRandom(mk_seed(sd)))
+    if fork:
+        r, w = os.pipe()
+        pid = os.fork()
+        if pid == 0:
+            code = 1
+            try:
+                os.close(r)
+                outs = _run_calls(case, cr, pyrandom, insts)
+                with os.fdopen(w, "w") as f:
+                    f.write(json.dumps(outs, default=str))
+                code = 0
+            finally:
+                os._exit(code)
+        os.close(w)
+        with os.fdopen(r) as f:
+            data = f.read()
+        os.waitpid(pid, 0)
+        return json.loads(data) if data else [{"err": "fork-child-failed"}]
+    return _run_calls(case, cr, pyrandom, insts)
+
+
+def _run_calls(case, cr, pyrandom, insts):
     dead = set()
     outs = []
     other = cr.CobaRandom(12345)
@@ -296,12 +320,12 @@ class C05(Property):
                 d = Fraction(1)
             return {"i": i, "op": "randoms", "n": rng.randint(0, 5), "lo": q(lo), "hi": q(lo + d), "exact": True}
         if r < 44:
-            a = rng.choice([0, 1, rng.randint(-1000, 1000)])
-            b = a + rng.choice([0, 1, 2, rng.randint(0, 50), rng.randint(0, 2 ** 22)])
+            a = rng.choice([0, 1, rng.randint(-1000, 1000), rng.randint(-1000, 1000), 10 ** 12, -(10 ** 12), 2 ** 53 + 1, -(2 ** 53) - 3, 2 ** 62])
+            b = a + rng.choice([0, 1, 2, 5, rng.randint(0, 50), rng.randint(0, 2 ** 22)])
             return {"i": i, "op": "randint", "a": a, "b": b}
         if r < 50:
-            a = rng.choice([0, 0, 1, rng.randint(-1000, 1000)])
-            b = a + rng.choice([0, 1, 2, rng.randint(0, 50), rng.randint(0, 2 ** 22)])
+            a = rng.choice([0, 0, 1, rng.randint(-1000, 1000), rng.randint(-1000, 1000), 10 ** 12, 2 ** 53 + 1, -(2 ** 53) - 3])
+            b = a + rng.choice([0, 1, 2, 5, rng.randint(0, 50), rng.randint(0, 2 ** 22)])
             return {"i": i, "op": "randints", "n": rng.randint(0, 5), "a": a, "b": b}
         if r < 64:
             h = {"i": i, "op": "shuffle", "n": rng.choice([0, 1, 2, 2, 3, 4, 5, 7, 9])}
@@ -356,6 +380,8 @@ class C05(Property):
         case = {"seeds": seeds, "hist": hist}
         if rng.chance(0.01 if tier == "quick" else 0.003):
             case["subprocess"] = True
+        if rng.chance(0.04 if tier == "quick" else 0.01):
+            case["fork"] = True
         return case
 
     def search(self, rng, tier):
@@ -391,6 +417,12 @@ class C05(Property):
                 {"i": 0, "op": "choice", "n": 3, "w": [[0, 1], [2, 1], [0, 1]], "wshare": 0},
                 {"i": 0, "op": "choice", "n": 3, "w": [[0, 1], [0, 1], [0, 1]], "wshare": 0},
                 {"i": 0, "op": "choicew", "n": 2, "w": [[0, 1], [5, 1]], "wshare": 0}]})
+        cs.append({"seeds": [{"kind": "int", "v": 5, "module": True}, {"kind": "int", "v": 9}],
+                   "hist": [dict(one, i=0), dict(one, i=1), {"i": 0, "op": "shuffle", "n": 5}, {"i": 0, "op": "gauss"}], "fork": True})
+        for s in (smax, s0, 7):
+            cs.append({"seeds": [{"kind": "int", "v": s}], "hist": [{"i": 0, "op": "randint", "a": 10 ** 12, "b": 10 ** 12 + 5},
+                                                                     {"i": 0, "op": "randint", "a": 2 ** 53 + 1, "b": 2 ** 53 + 3},
+                                                                     {"i": 0, "op": "randints", "n": 3, "a": -(2 ** 53) - 3, "b": -(2 ** 53) - 1}]})
         cs.append({"seeds": [{"kind": "str", "v": "abc"}, {"kind": "float", "v": "1.5"}, {"kind": "float", "v": "3.0"}],
                    "hist": [dict(one, i=0), dict(one, i=1), dict(one, i=2), {"i": 0, "op": "shuffle", "n": 6}], "subprocess": True})
         return cs
@@ -478,6 +510,12 @@ class C05(Property):
         again = run_history(case)
         if json.dumps(again, default=str) != json.dumps(impl, default=str):
             fails.append(F("B", "the same history gave different values on a second run in the same process", "not-repeatable"))
+        if case.get("fork"):
+            tags.append("fork")
+            forked = run_history(case, fork=True)
+            if json.dumps(forked, default=str) != json.dumps(json.loads(json.dumps(impl, default=str))):
+                fails.append(F("B", "a child created by fork() after the generators were seeded produced different values: child %s, parent %s"
+                               % (json.dumps(forked, default=str)[:300], json.dumps(impl, default=str)[:300]), "not-pure-fork"))
         if case.get("subprocess"):
             tags.append("subprocess")
             code = ("import sys,json; sys.path.insert(0,%r); sys.path.insert(0,%r); import warnings; warnings.filterwarnings('ignore');"
